@@ -43,7 +43,13 @@ func (vm *VM) runFunc(fn *Function, vars []reflect.Value) error {
 			}
 			return err
 		}
-		p.next = vm.panic
+		// p can be followed by the other panics of a function called by a
+		// native function.
+		last := p
+		for last.next != nil {
+			last = last.next
+		}
+		last.next = vm.panic
 		vm.panic = p
 		if len(vm.calls) == 0 {
 			break
